@@ -173,7 +173,7 @@ class SystemGPGEnvironment:
             elif line.startswith(b'[GNUPG:] TRUST_'):
                 spl = line.split(b' ', 2)
                 if spl[1] in (b'TRUST_MARGINAL',
-                              b'TRUST_FULL',
+                              b'TRUST_FULLY',
                               b'TRUST_ULTIMATE'):
                     is_trusted = True
 
